@@ -2,6 +2,7 @@ import LyModel.Props.C02Full
 import LyModel.Valid.XpLemmas
 import LyModel.Valid.XpWitness
 import LyModel.Valid.XpTag
+import LyModel.Valid.XpCfg
 /-!
 # C02 — the XPath-dependent constraints: `must`, leafref `require-instance` (and `when`, modelled, see the end)
 
@@ -31,14 +32,13 @@ data node and leafref types (`require-instance true`), no `when` (`C.whens = []`
 logs no error **iff** it satisfies the structural specification AND every `must` / leafref constraint on the accessible tree
 (`ValidX`).  Hypotheses beyond those of `validate_ok_iff_valid_full`: `hacc` — the validated tree is the accessible tree of the
 specification up to flags (the law `implicit` of the C07 check on every run; a theorem for schemas without `choice`:
-`validate_ok_iff_valid_xpath_nochoice` below); `hcc` — in the data `config false` is inherited (decidable; true of placed
-instances of a compiled schema). -/
+`validate_ok_iff_valid_xpath_nochoice` below).  (That `config false` is inherited in the data, which the configuration-only tree of
+a `must` needs, follows from the hypotheses: `cfgClosed_rfcComplete`, LyModel/Valid/XpCfg.lean.) -/
 theorem validate_ok_iff_valid_xpath (X : SchemaX) (C : XCons) (o : VOpts) (hop : o.operational = false)
     (hq : X.q.implicitInnerCase = false) (hqu : X.q.uniqueDefaultAlways = false) (hl : KidsLookupOk X) (hnl : NodeLookupOk X)
     (hio : InfoOk X) (hs : FullSane X o) (hup : UniqPathsOk X) (hw : C.whens = []) (t : List DNode)
     (hg : goodL X X.top t = true) (hlen0 : t.length ≤ uint32Max) (hh : sheightL X.top ≤ walkFuel X t)
-    (hacc : obsL X.base (validate X o t).tree = obsL X.base (rfcComplete X o t))
-    (hcc : cfgClosedL X.base true (rfcComplete X o t) = true) :
+    (hacc : obsL X.base (validate X o t).tree = obsL X.base (rfcComplete X o t)) :
     (buildL X.base t = none ∧ (validateX X C o t).errs = []) ↔ ValidX X C o t := by
   have hfull := validate_ok_iff_valid_full X o hop hq hqu hl hnl hio hs hup t hg hlen0 hh
   unfold ValidX violationsX
@@ -56,7 +56,7 @@ theorem validate_ok_iff_valid_xpath (X : SchemaX) (C : XCons) (o : VOpts) (hop :
     simp only [hpe', Bool.false_eq_true, if_false, List.append_eq_nil_iff]
     have := hfull
     unfold Valid at this
-    rw [validateX_ok_iff X C o t hop (whenPhase_nil X C o hw) hpe' hacc hcc, ← and_assoc, this]
+    rw [validateX_ok_iff X C o t hop (whenPhase_nil X C o hw) hpe' hacc (cfgClosed_rfcComplete X o hl hio hs t hg), ← and_assoc, this]
 
 /-- **the same for schemas without `choice`, unconditionally**: there the completion equation is a theorem
 (`implicit_exact_tree_nochoice`, Props/C07Completion.lean), for options without `LYD_VALIDATE_NO_STATE` -/
@@ -65,15 +65,14 @@ theorem validate_ok_iff_valid_xpath_nochoice (X : SchemaX) (C : XCons) (o : VOpt
     (hnl : NodeLookupOk X) (hio : InfoOk X) (hs : FullSane X o) (hup : UniqPathsOk X) (hD : DataSchema X) (hw : C.whens = [])
     (t : List DNode) (hne : t ≠ [])
     (hg : goodL X X.top t = true) (hlen0 : t.length ≤ uint32Max) (hh : sheightL X.top ≤ walkFuel X t)
-    (hf : freshExplL t = true) (hp : placedL X X.top t = true) (hsh : cShapedL X.base t = true)
-    (hcc : cfgClosedL X.base true (rfcComplete X o t) = true) :
+    (hf : freshExplL t = true) (hp : placedL X X.top t = true) (hsh : cShapedL X.base t = true) :
     (buildL X.base t = none ∧ (validateX X C o t).errs = []) ↔ ValidX X C o t := by
   have hpe : (o.present && t.isEmpty) = false := by
     cases t with
     | nil => exact absurd rfl hne
     | cons _ _ => simp
   exact validate_ok_iff_valid_xpath X C o hop hq hqu hl hnl hio hs hup hw t hg hlen0 hh
-    (validate_rfcComplete_nochoice X o t hno hD hf hp hsh hh hpe) hcc
+    (validate_rfcComplete_nochoice X o t hno hD hf hp hsh hh hpe)
 
 /-- **without XPath-dependent statements `validateX` is `validate`** (so every C02 theorem about `validate` is one about the model the
 check drives through `valx`) -/
@@ -97,7 +96,7 @@ example : ((buildL Xxp.base tXpOk = none ∧ (validateX Xxp Cxp {} tXpOk).errs =
   exact validate_ok_iff_valid_xpath_nochoice Xxp Cxp {} rfl rfl rfl rfl (lookupOk_of_B _ (by decide +kernel))
     (nodeLookupOk_of_B _ (by decide +kernel)) (infoOk_of_B _ (by decide +kernel)) (fullSane_of_B _ _ (by decide +kernel))
     (uniqPathsOk_of_B _ (by decide +kernel)) (dataSchema_of_B _ (by decide +kernel)) rfl tXpOk (by decide +kernel) (by decide +kernel)
-    (by decide +kernel) (by decide +kernel) (by decide +kernel) (by decide +kernel) (by decide +kernel) (by decide +kernel)
+    (by decide +kernel) (by decide +kernel) (by decide +kernel) (by decide +kernel) (by decide +kernel)
 
 /-- **`validate_error_tag_xpath`** (same hypotheses, `LYD_VALIDATE_OPERATIONAL` allowed for the XPath part): every error `validateX` logs
 is an error `validate` logs — hence of a structural family the instance violates (`validate_error_tag_full`) — or a `NoMust`
@@ -108,8 +107,7 @@ theorem validate_error_tag_xpath (X : SchemaX) (C : XCons) (o : VOpts) (hop : o.
     (hio : InfoOk X) (hs : FullSane X o) (hup : UniqPathsOk X) (hw : C.whens = []) (t : List DNode)
     (hg : goodL X X.top t = true) (hlen0 : t.length ≤ uint32Max) (hh : sheightL X.top ≤ walkFuel X t)
     (hpe : (o.present && t.isEmpty) = false)
-    (hacc : obsL X.base (validate X o t).tree = obsL X.base (rfcComplete X o t))
-    (hcc : cfgClosedL X.base true (rfcComplete X o t) = true) :
+    (hacc : obsL X.base (validate X o t).tree = obsL X.base (rfcComplete X o t)) :
     ∀ e ∈ (validateX X C o t).errs, e.kind ∈ violationsX X C o t ∨ (e.kind = .xpErr ∧ EKind.noMust ∈ violationsX X C o t) := by
   intro e he
   have hmem : ∀ K, K ∈ xpViolations X.base C (rfcComplete X o t) → K ∈ violationsX X C o t := by
@@ -117,7 +115,7 @@ theorem validate_error_tag_xpath (X : SchemaX) (C : XCons) (o : VOpts) (hop : o.
     unfold violationsX
     simp only [hpe, Bool.false_eq_true, if_false, List.mem_append]
     exact Or.inr hK
-  rcases validateX_error_tag X C o t (whenPhase_nil X C o hw) hpe hacc hcc e he with h | ⟨hk, h⟩ | ⟨hk, h⟩ | ⟨hk, h⟩
+  rcases validateX_error_tag X C o t (whenPhase_nil X C o hw) hpe hacc (cfgClosed_rfcComplete X o hl hio hs t hg) e he with h | ⟨hk, h⟩ | ⟨hk, h⟩ | ⟨hk, h⟩
   · left
     unfold violationsX
     rw [List.mem_append]
@@ -135,7 +133,7 @@ example : (∀ e ∈ (validateX Xxp Cxp {} tXpBadMust).errs, e.kind ∈ violatio
     (infoOk_of_B _ (by decide +kernel)) (fullSane_of_B _ _ (by decide +kernel)) (uniqPathsOk_of_B _ (by decide +kernel)) rfl tXpBadMust
     (by decide +kernel) (by decide +kernel) (by decide +kernel) rfl
     (validate_rfcComplete_nochoice Xxp {} tXpBadMust rfl (dataSchema_of_B _ (by decide +kernel)) (by decide +kernel) (by decide +kernel)
-      (by decide +kernel) (by decide +kernel) rfl) (by decide +kernel) e he
+      (by decide +kernel) (by decide +kernel) rfl) e he
   rcases this with h | ⟨hk, _⟩
   · exact h
   · exfalso
